@@ -17,6 +17,7 @@ FAMS_Q = {
     "prov": ("prov", {}),
     "provrel": ("provrel", {}),
     "consten": ("consten", {}),
+    "xrel": ("xrel", {}),
     "bad": ("bad", {}),
     "xmod": ("xmod", {}),
     "xmod_l": ("xmod", {"small": False}),
